@@ -48,6 +48,7 @@ def combos_quick(rng):
 
 class Prop(BaseProp):
     ID = "C08"
+    ANCHORS = ['cminx.aggregator:DocumentationAggregator.enterCommand_invocation', 'cminx.aggregator:DocumentationAggregator.process_cpp_member', 'cminx.aggregator:DocumentationAggregator.process_cpp_attr']
     LEVEL = "exploration"
     RULE = ("modules mixing documented and undocumented commands of all ten flag-controlled kinds (documented classes "
             "with documented and undocumented members, undocumented classes with documented members, sibling and "
